@@ -5,6 +5,7 @@ import (
 	"fmt"
 	"math/big"
 
+	secp256k1 "gitlab.com/yawning/secp256k1-voi"
 	"gitlab.com/yawning/secp256k1-voi/secec/bitcoin"
 
 	"verifharness/gen"
@@ -233,6 +234,46 @@ func runC13(r *mon.Run) {
 		key[0] ^= 0xff
 		if !bytes.Equal(k.Bytes(), keep) {
 			w.Fail("c13/NewSchnorrPublicKey:alias", "mutating the caller's slice changed the key")
+		}
+	})
+
+	// --- no hidden state: the x-only import after decodes of the SAME x with either parity ---
+	// (a decompression memo keyed on x alone makes lift_x return the odd-y point when the
+	// previous successful decode in the process was 03||x); single goroutine.
+	r.Require("c13:seq:import-after-odd-decode", "c13:seq:import-after-even-decode", "c13:seq:verify-after-import")
+	r.Seq("c13/import-sequences", r.N(300, 12000), func(w *mon.W, i int) {
+		rng := w.Rng
+		d0, _ := keyValue(rng)
+		d, P := evenKey(d0)
+		xb := b32(P.X)
+		msg := rng.Bytes(rng.Intn(70))
+		sig := oracle.BIP340Sign(d, rng.Bytes(32), msg)
+		w.Case(true, []byte("import-seq"), xb, msg)
+		prefix := byte(2 + i%2)
+		if _, err := secp256k1.NewPointFromBytes(append([]byte{prefix}, xb...)); err != nil {
+			w.Fail("c13/seq:decode", fmt.Sprintf("compressed decode of a valid point failed: %v", err))
+			return
+		}
+		if prefix == 3 {
+			w.Class("c13:seq:import-after-odd-decode")
+		} else {
+			w.Class("c13:seq:import-after-even-decode")
+		}
+		for rep := 0; rep < 2; rep++ {
+			k, err := bitcoin.NewSchnorrPublicKey(xb)
+			if err != nil {
+				w.Fail("c13/seq:import", fmt.Sprintf("NewSchnorrPublicKey(%x) failed right after decoding %02x||x: %v", xb, prefix, err))
+				return
+			}
+			if m := expectPoint(k.Point(), P); m != "" {
+				w.Fail("c13/seq:lift", fmt.Sprintf("NewSchnorrPublicKey(%x) right after decoding %02x||x does not hold the even-y lift: %s", xb, prefix, m), "x", hx(xb))
+				return
+			}
+			w.Class("c13:seq:verify-after-import")
+			if !k.Verify(msg, sig) {
+				w.Fail("c13/seq:verify", fmt.Sprintf("a valid BIP-340 signature is rejected by the key imported right after decoding %02x||x", prefix), "x", hx(xb), "msg", hx(msg), "sig", hx(sig))
+				return
+			}
 		}
 	})
 
